@@ -377,6 +377,7 @@ func runC20(c *Ctx) []Violation {
 	} else {
 		s := sched.New(c.T)
 		s.Policy = policy
+		s.Soft = sched.DrawSoft(c.T, nTasks)
 		fns := make([]func(*sched.Task), nTasks)
 		for i := range tasks {
 			t := tasks[i]
@@ -391,6 +392,9 @@ func runC20(c *Ctx) []Violation {
 		c.Events += int64(s.Steps)
 		c.Count("task-switches", int64(s.Switches))
 		c.SigMix(s.TraceSig())
+		for _, r := range res {
+			c.Count("soft-yields-taken", int64(r.SoftTaken))
+		}
 	}
 	total := 0
 	sets := 0
